@@ -1007,7 +1007,19 @@ func (e *Env) call(x *ECall) Val {
 		v := e.tr(x.Args[0])
 		c.declIface()
 		t := e.typeOf(typeArgText(x.Args[1]))
-		return Val{T: "(dyn_ptr " + v.T + ")", Ty: t}
+		switch t.Underlying().(type) {
+		case *types.Pointer, *types.Map, *types.Chan, *types.Signature:
+			return Val{T: "(dyn_ptr " + v.T + ")", Ty: t}
+		case *types.Interface:
+			return Val{T: v.T, Ty: t}
+		}
+		// a boxed non-pointer value: the same per-type injection makeIface / typeAssert use
+		u := sym("unbox " + typeName(t))
+		f := sym("box " + typeName(t))
+		c.decl("(declare-fun " + f + " (" + c.sortOf(t) + ") Int)")
+		c.decl("(declare-fun " + u + " (Int) " + c.sortOf(t) + ")")
+		c.decl("(assert (forall ((v " + c.sortOf(t) + ")) (! (= (" + u + " (" + f + " v)) v) :pattern ((" + f + " v)))))")
+		return Val{T: "(" + u + " (dyn_ptr " + v.T + "))", Ty: t}
 	case "athead":
 		// athead(E) inside a loop invariant: the value E had at the loop head at the START of the iteration whose
 		// back edge is being checked (E itself where the invariant is established or assumed). Makes transition
@@ -1034,6 +1046,16 @@ func (e *Env) call(x *ECall) Val {
 		}
 		k := "calls " + normAnchor(st.Val)
 		if gv, ok := c.ghost[k]; ok {
+			return gv
+		}
+		return Val{T: c.mode.idxLit(0), Ty: intTy}
+	case "deferred":
+		// deferred("callee"): the number of defer statements naming that callee executed so far on this path
+		st, ok := x.Args[0].(*EStr)
+		if !ok {
+			e.fail("deferred() needs a string literal")
+		}
+		if gv, ok := c.ghost["deferred "+normAnchor(st.Val)]; ok {
 			return gv
 		}
 		return Val{T: c.mode.idxLit(0), Ty: intTy}
